@@ -69,10 +69,6 @@ struct VTrailer : MessageBase
    VTrailer(const F8MetaCntx& c, const f8String& mt, const FieldTrait *t, const FieldTrait_Hash_Array *h) : MessageBase(c, mt, t, 0, h), _cs(new check_sum) {}
    check_sum *get_check_sum() { return _cs; }
 };
-struct VMsg : Message
-{
-   VMsg(const F8MetaCntx& c, const f8String& mt, const FieldTrait *t, const FieldTrait_Hash_Array *h) : Message(c, mt, t, 0, h) {}
-};
 struct VGroup : GroupBase
 {
    VGroup(unsigned short fnum) : GroupBase(fnum) {}
@@ -118,7 +114,8 @@ void vf_mk_trailer(VTrailer *m, F8MetaCntx *c, FieldTrait *arr, FieldTrait_Hash_
    new (m) VTrailer(*c, *vf_mt_trl, arr, h); attach(m, arr, VF_N_TRL);
    m->_fp.set(Common_CheckSum, FieldTrait::present);     // generated trailer::add_preamble()
 }
-void vf_mk_body(VMsg *m, F8MetaCntx *c, FieldTrait *arr, FieldTrait_Hash_Array *h) { new (m) VMsg(*c, *vf_mt_body, arr, h); attach(m, arr, VF_N_BODY); }
+// the body is a plain FIX8::Message (a subclass would be laid out over Message's tail padding: a different C struct for the same storage)
+void vf_mk_body(Message *m, F8MetaCntx *c, FieldTrait *arr, FieldTrait_Hash_Array *h) { new (m) Message(*c, *vf_mt_body, arr, 0, h); attach(m, arr, VF_N_BODY); }
 void vf_mk_element(MessageBase *m, F8MetaCntx *c, FieldTrait *arr, FieldTrait_Hash_Array *h) { new (m) MessageBase(*c, *vf_mt_grp, arr, 0, h); attach(m, arr, VF_N_GRP); }
 void vf_mk_group(VGroup *g, unsigned short fnum) { new (g) VGroup(fnum); }
 
